@@ -1,9 +1,14 @@
 use super::*;
 use crate::logging;
+#[cfg(not(flea1lt_sentinel_rust_verif))]
 use std::sync::{
     atomic::{AtomicU64, Ordering},
     Arc, Mutex,
 };
+#[cfg(flea1lt_sentinel_rust_verif)]
+use std::sync::{atomic::Ordering, Arc};
+#[cfg(flea1lt_sentinel_rust_verif)]
+use crate::verif::sync::{atomic::AtomicU64, Mutex};
 
 #[derive(Debug)]
 pub struct ErrorCountBreaker {
